@@ -20,6 +20,15 @@ OUT = os.path.join(ROOT, "out")
 HARNESS = os.path.join(ROOT, "harness")
 NCPU = min(16, os.cpu_count() or 4)
 
+# The repository under test. Registered commands always use /repo; background soak runs started with
+# `vp run --with-repo` may point VERIF_REPO at their snapshot so that /repo can be patched meanwhile.
+REPO = os.environ.get("VERIF_REPO", "/repo")
+if REPO != "/repo":
+    _ct = os.path.join(HARNESS, "Cargo.toml")
+    _s = open(_ct).read()
+    if 'path = "/repo"' in _s:
+        open(_ct, "w").write(_s.replace('path = "/repo"', f'path = "{REPO}"'))
+
 ENV = dict(os.environ)
 ENV["CARGO_TARGET_DIR"] = TARGET
 ENV["CARGO_NET_OFFLINE"] = "true"
@@ -62,7 +71,7 @@ def build_repo_cli():
     """The real hpbf binary, rebuilt from /repo's working tree (own target dir)."""
     env = dict(ENV)
     env["CARGO_TARGET_DIR"] = os.path.join(BUILD, "repo-target")
-    r = subprocess.run(["cargo", "build", "--release", "--offline", "--bin", "hpbf"], cwd="/repo", env=env, capture_output=True, text=True)
+    r = subprocess.run(["cargo", "build", "--release", "--offline", "--bin", "hpbf"], cwd=REPO, env=env, capture_output=True, text=True)
     if r.returncode != 0:
         log(r.stderr[-4000:])
         sys.exit(2)
